@@ -57,5 +57,20 @@ func Bytes(name string, maxLen, maxCap int) []byte {
 	return b[:ln]
 }
 
+// String returns an arbitrary string of at most maxLen bytes (any bytes, valid UTF-8 or not).
+func String(name string, maxLen int) string {
+	ln, ok := vsched.Input(name, ".len")
+	if !ok {
+		return ""
+	}
+	b := make([]byte, ln)
+	for i := range b {
+		if v, ok := vsched.Input(name, fmt.Sprintf("[%d]", i)); ok {
+			b[i] = byte(v)
+		}
+	}
+	return string(b)
+}
+
 // CancelAnytime lets the environment call cancel at an arbitrary moment.
 func CancelAnytime(cancel func()) { vsched.Go("env-cancel", cancel) }
